@@ -45,6 +45,12 @@ pub fn directed() -> Vec<(&'static str, &'static str)> {
         ("result-shares-with-global", "stel g = [1.5]; functie f() { 0 } f(); [g, g]"),
         ("float-loop", "functie f(n) { stel x = 0.5; stel i = 0; zolang i < n { x = x * 1.5 + 0.25; i += 1 }; x } f(50)"),
         ("last-statement-value-root", "functie f() { [9.5] } [1.5, \"laatste\"]; f(); f(); 1"),
+        ("procedure-return-last-value-root", "functie p() { stel x = 1 } [1.5, \"laatste\"]; p(); stel q = p(); 1"),
+        ("procedure-return-last-value-is-result", "functie p() { stel x = 1 } [1.5, \"laatste\"]; stel q = p()"),
+        ("empty-function-return-roots", "functie leeg() { } stel g = [2.5, \"globaal\"]; \"laatste waarde\"; leeg(); stel r = leeg(); g"),
+        ("procedure-pending-operands", "functie p(v) { stel kopie = [v] } [\"a\", 1.5, p(2.5), [3.5], p(\"s\")]"),
+        ("procedure-pending-arguments", "functie p(v) { stel kopie = v } functie drie(a, b, c) { [a, b, c] } drie(\"een\", p(1), [2.5])"),
+        ("procedure-in-loop", "functie p(v) { stel t = [v, v] } stel acc = [\"begin\"]; stel i = 0; zolang i < 5 { i += 1; string(i); p(i); acc[0] = string(i) }; acc"),
         ("error-after-allocations", "stel a = [1.5, \"x\"]; functie f() { [2.5] } f(); a[7]"),
         ("error-inside-call", "functie f(x) { stel t = [x, 1.5]; t[5] } f(\"arg\")"),
         ("compile-error-after-constants", "\"abc\"; 1.5; [2.5, \"def\"]; onbekend"),
@@ -464,6 +470,13 @@ impl Heap {
             Which::C04 => {
                 if o.events.iter().any(|e| event_class(e) == "double-free") {
                     st.violation(&format!("{}:{}double-free", fam, label), format!("{:?}", o.events), text);
+                    return o.count;
+                }
+                // the returned result must stay valid after the interpreter is gone: the harness walks it and releases
+                // each distinct object once, after eval returned
+                if o.stop_in_walk {
+                    let c = o.events.first().map(event_class).unwrap_or_default();
+                    st.violation(&format!("{}:{}result-not-valid-after-eval:{}", fam, label, c), format!("eval returned a value, but walking / releasing its object graph afterwards hit: {:?}", o.events), text);
                     return o.count;
                 }
                 if let Some(f) = managed_f.first() {
